@@ -6,6 +6,7 @@ import Proofs.C08.Sig
 import Proofs.C08.Sim
 import Proofs.C08.Tap
 import Proofs.C08.Verify
+import Proofs.C08.Mono
 import Model.C08.Verify
 import Generated.Script
 /-!
@@ -466,6 +467,32 @@ example : Core.evalWith (demoCx [0x00, 0x63, 0x7e, 0x68, 0x51]) [] = .error .DIS
 example : Core.evalWith (demoCx [0x00, 0x63, 0x6a, 0x68, 0x51]) [] = .ok [[1]] := by decide
 example : Core.evalWith (demoCx [0x51, 0x63]) [] = .error .UNBALANCED_CONDITIONAL := by decide
 example : Core.evalWith (demoCx [0x68]) [] = .error .UNBALANCED_CONDITIONAL := by decide
+
+/-! ## T5 — flag monotonicity (partial) -/
+
+/-- PARTIAL.  Full statement (NOT proved; believed true of the transcription, no counterexample found): for flag sets
+    `f' ⊆ f`, both closed under Core's assertions (WITNESS ⇒ P2SH, CLEANSTACK ⇒ P2SH ∧ WITNESS),
+    `Core.verifyScript {env with flags := f} scriptSig scriptPubKey witness = .ok ()` implies
+    `Core.verifyScript {env with flags := f'} scriptSig scriptPubKey witness = .ok ()`.
+    Proved here: the three primitives below the loop that read a flag accept under the smaller set whatever they accept
+    under the larger one, with the same value -- `CheckSignatureEncoding` (DERSIG, LOW_S, STRICTENC),
+    `CheckPubKeyEncoding` (STRICTENC, WITNESS_PUBKEYTYPE) and the `CScriptNum` constructor as `EvalScript` calls it
+    (MINIMALDATA).  Missing: OP_CHECKLOCKTIMEVERIFY / OP_CHECKSEQUENCEVERIFY (NOP without their flag), NULLFAIL,
+    NULLDUMMY, CONST_SCRIPTCODE, MINIMALIF, minimal push, DISCOURAGE_*, the induction over `Core.step` / `Core.run`, and
+    the VerifyScript shell (P2SH, WITNESS, TAPROOT, CLEANSTACK, SIGPUSHONLY). -/
+theorem flag_monotonicity_primitives_partial (f' f : Nat) (hf : Mono.FlagsLe f' f) :
+    (∀ sig, Core.checkSignatureEncoding f sig = .ok () → Core.checkSignatureEncoding f' sig = .ok ()) ∧
+    (∀ sv k, Core.checkPubKeyEncoding f sv k = .ok () → Core.checkPubKeyEncoding f' sv k = .ok ()) ∧
+    (∀ (cx : Core.Ctx) v m i, cx.flags = f → Core.num cx v m = .ok i → Core.num (Mono.withFlags cx f') v m = .ok i) :=
+  ⟨fun sig h => Mono.checkSignatureEncoding_mono f' f hf sig h,
+   fun sv k h => Mono.checkPubKeyEncoding_mono f' f hf sv k h,
+   fun cx v m i hc h => Mono.num_mono cx f' (hc ▸ hf) v m i h⟩
+
+example (f : Nat) : Mono.FlagsLe 0 f := by intro b h; simp [Core.has] at h
+example (f : Nat) : Mono.FlagsLe f f := fun _ h => h
+-- the converse direction is false: a high-S signature passes without LOW_S and not with it is NOT claimed; a non-minimal
+-- number is accepted without MINIMALDATA and refused with it:
+example : Core.scriptNum [0x01, 0x00] false 4 = .ok 1 ∧ Core.scriptNum [0x01, 0x00] true 4 ≠ .ok 1 := by decide
 
 /-! ## T6 — helpers of the VerifyScript shell (`btclib/script/engine/__init__.py`) -/
 
